@@ -4,6 +4,7 @@ package mailbox
 
 import (
 	"io"
+	"time"
 
 	"github.com/btcsuite/btcd/btcec/v2"
 	"github.com/lightningnetwork/lnd/keychain"
@@ -46,6 +47,9 @@ func (h *vHalf) Read(p []byte) (int, error) {
 			h.pending = b
 		case <-h.closed:
 			return 0, io.EOF
+		case <-time.After(handshakeReadTimeout):
+			// the callers of DoHandshake arm this read deadline on the real conn
+			return 0, vErrTimeout
 		}
 	}
 	q := p
